@@ -30,6 +30,7 @@ class Mesh:
         self.deleted: Set[Operation] = set()
         # the operations the current blocks were made from, in the order of blocks
         self.assembled_operations: List[Operation] = []
+        self.skip_edges = False  # the last assemble()'s argument, for backport()
 
         self.vertex_list = VertexList()
         self.edge_list = EdgeList()
@@ -103,6 +104,8 @@ class Mesh:
         actual vertices, edges, blocks and other stuff to be inserted into
         blockMeshDict. After this has been done, the above objects
         cease to have any function or influence on mesh."""
+        self.skip_edges = skip_edges
+
         # first, collect data about patches and merged stuff
         for entity in self.depot:
             if isinstance(entity, Operation):
@@ -174,7 +177,7 @@ class Mesh:
             op.top_face.update(vertices[4:])
 
         self.clear()
-        self.assemble()
+        self.assemble(self.skip_edges)
 
     def format_settings(self) -> str:
         """Put self.settings in a proper, blockMesh-readable format"""
